@@ -4,6 +4,7 @@
 package selftest
 
 import (
+	"crypto/rand"
 	"encoding/binary"
 	"errors"
 	"time"
@@ -218,4 +219,14 @@ func GoodExplicitPanic(x int) int { // requires x != 42
 		panic("boom")
 	}
 	return x
+}
+
+// the model of rand.Read writes the byte heap; a claim that the buffer is unchanged must fail
+func BadByteAlias(b []byte) byte {
+	if len(b) == 0 {
+		return 0
+	}
+	b[0] = 7
+	rand.Read(b)
+	return b[0]
 }
